@@ -515,6 +515,12 @@ func TestLargeBacklog(t *testing.T) {
 	if ev.Tier() == "thorough" {
 		scs = append(scs, sc{1100, 128, 501}, sc{520, 300, 0}, sc{2100, 40, 7})
 	}
+	// a long backlog of small messages (more than 5000 entries behind), then kills in the middle
+	// of the batches while the consumer catches up: a restart still replays at most the message
+	// in progress
+	for _, k := range []int{17, 5004} {
+		check(t, Case{Rounds: []Round{{Append: 5300, Crash: "stall:2"}, {Append: 0, Crash: fmt.Sprintf("exit:%d", k)}, {Append: 0, Crash: fmt.Sprintf("enter:%d", k+26)}, {Append: 3, Crash: "none"}}}, "long-backlog")
+	}
 	for _, x := range scs {
 		c := Case{Rounds: []Round{{Append: x.n, PayloadKB: x.kb, Crash: fmt.Sprintf("stall:%d", x.k)}, {Append: 30, Crash: "none"}, {Append: 510, PayloadKB: x.kb / 2, Crash: fmt.Sprintf("stall:%d", x.n+35)}}}
 		check(t, c, "large-backlog")
